@@ -256,6 +256,14 @@ theorem step_ok (fx : Bool) (pos : Nat) (n : Node) (st : St) (h : Node.ok n = tr
     | tuple sp elems =>
       simp only [step]
       split <;> simp [StepOk, Node.ok]
+    | record sp fs =>
+      simp only [step]
+      split
+      · simp [StepOk]
+      · split <;> simp [StepOk, Node.ok]
+      · simp [StepOk]
+    | fieldShort nsp b => simp [step, StepOk]
+    | fieldVal nsp v => simp [step, StepOk]
   | variant v =>
     cases v with
     | none => simp [step, StepOk]
